@@ -24,11 +24,7 @@ h_modexp(void)
 {
 	DH_PRE();
 	IN_BYTES(priv, CRYPTO_DH_PRIVLEN, CRYPTO_DH_PRIVLEN);
-	/* output buffer of exactly 256 bytes; the size goes through a variable so that CBMC treats the object with its
-	   array theory (513 single-byte stores at symbolic positions are costly on a flattened array) */
-	IN(size_t, rsize);
-	__CPROVER_assume(rsize == CRYPTO_DH_PUBLEN);
-	uint8_t * r = malloc(rsize);
+	uint8_t * r = malloc(CRYPTO_DH_PUBLEN);
 	__CPROVER_assume(r != NULL);
 	/* the base: the one BIGNUM the caller holds (slot 0), any value below 2^2048, public */
 	IN(bn_val_t, aval);
